@@ -29,6 +29,15 @@ MUTANTS = [
  ('elim-result-from-last-state', 'elim', 'expression.rs', 'if !b.is_empty() && b[0].is_some() {\n            b[0].as_ref().unwrap().clone()', 'if !b.is_empty() && b[state_count - 1].is_some() {\n            b[state_count - 1].as_ref().unwrap().clone()', 'fail', 'elim.'),
  ('elim-union-operands-swapped-benign', 'elim', 'expression.rs', 'b[i] =\n                        Self::union(&b[i], &Self::concatenate(&a[(i, n)], &b[n], config), config);', 'b[i] =\n                        Self::union(&Self::concatenate(&a[(i, n)], &b[n], config), &b[i], config);', 'pass', ''),
  ('find-next-ignores-max', 'trie', 'dfa.rs', '} else if current_grapheme.maximum() == grapheme.maximum() {', '} else if current_grapheme.maximum() >= grapheme.maximum() {', 'fail', 'find_next_state.'),
+ ('merged-label-flag-order', 'trie', 'dfa.rs', '                    self.config.is_capturing_group_enabled,\n                    self.config.is_output_colorized,\n                    self.config.is_verbose_mode_enabled,', '                    self.config.is_verbose_mode_enabled,\n                    self.config.is_output_colorized,\n                    self.config.is_capturing_group_enabled,', 'fail', 'find_next_state.relabel_keeps_config_flags'),
+ ('grapheme-new-flag-swap', 'trie', 'grapheme.rs', '            max,\n            is_capturing_group_enabled,\n            is_output_colorized,', '            max,\n            is_capturing_group_enabled: is_verbose_mode_enabled,\n            is_output_colorized,', 'fail', 'grapheme.new_flags'),
+ ('nested-escape-recursion-removed', 'nested', 'grapheme.rs', '        for repetition in self.repetitions.iter_mut() {\n            repetition.escape_regexp_symbols(\n                is_non_ascii_char_escaped,\n                is_astral_code_point_converted_to_surrogate,\n            );\n        }\n', '', 'fail', 'escape_regexp_symbols.nested_repetitions_escaped'),
+ ('nested-escape-flags-swapped', 'nested', 'grapheme.rs', '            repetition.escape_regexp_symbols(\n                is_non_ascii_char_escaped,\n                is_astral_code_point_converted_to_surrogate,', '            repetition.escape_regexp_symbols(\n                is_astral_code_point_converted_to_surrogate,\n                is_non_ascii_char_escaped,', 'fail', 'escaped_below'),
+ ('literal-nested-filter-unrepeated', 'nested', 'format.rs', '                    .iter_mut()\n                    .for_each(|repeated_grapheme| {', '                    .iter_mut()\n                    .filter(|repeated_grapheme| repeated_grapheme.maximum() == 1)\n                    .for_each(|repeated_grapheme| {', 'fail', 'format_literal.'),
+ ('literal-branches-swapped', 'nested', 'format.rs', 'if grapheme.has_repetitions() {\n                grapheme\n                    .repetitions_mut()', 'if !grapheme.has_repetitions() {\n                grapheme\n                    .repetitions_mut()', 'fail', 'format_literal.'),
+ ('benign-nested-loop-as-for-each', 'nested', 'grapheme.rs', '        for repetition in self.repetitions.iter_mut() {\n            repetition.escape_regexp_symbols(\n                is_non_ascii_char_escaped,\n                is_astral_code_point_converted_to_surrogate,\n            );\n        }\n', '        self.repetitions.iter_mut().for_each(|repetition| {\n            repetition.escape_regexp_symbols(\n                is_non_ascii_char_escaped,\n                is_astral_code_point_converted_to_surrogate,\n            );\n        });\n', 'pass', ''),
+ ('reuse-edge-on-equal-minimum', 'trie', 'dfa.rs', '} else if current_grapheme.maximum() == grapheme.maximum() {', '} else if current_grapheme.maximum() == grapheme.maximum() || current_grapheme.minimum() == grapheme.minimum() {', 'fail', 'find_next_state.reuse_scope'),
+ ('edge-compare-first-grapheme', 'trie', 'dfa.rs', 'if current_grapheme.value() != grapheme.value() {', 'if current_grapheme.chars().first() != grapheme.chars().first() {', 'undecided-or-fail', 'find_next_state.'),
  ('add-new-state-edge-reversed', 'trie', 'dfa.rs', '.add_edge(current_state, next_state, edge_label.clone());', '.add_edge(next_state, current_state, edge_label.clone());', 'fail', 'add_new_state.'),
  ('insert-marks-start', 'trie', 'dfa.rs', 'self.final_state_indices.insert(current_state.index());\n    }', 'self.final_state_indices.insert(self.initial_state.index());\n    }', 'fail', 'insert.'),
  ('pipeline-sort-before-lowercase', 'regexp', 'regexp.rs', '        if config.is_case_insensitive_matching {\n            Self::convert_for_case_insensitive_matching(test_cases);\n        }\n        Self::sort(test_cases);', '        Self::sort(test_cases);\n        if config.is_case_insensitive_matching {\n            Self::convert_for_case_insensitive_matching(test_cases);\n        }', 'fail', 'pipeline.input_prepared'),
@@ -69,6 +78,13 @@ MUTANTS = [
  ('verbose-whitespace-as-class-again', 'render', 'regexp.rs', 'regexp = regexp.replace(whitespace, &format!("\\\\u{:04x}", whitespace as u32));', 'regexp = regexp.replace(whitespace, "\\\\s");', 'undecided-or-fail', 'verbose.'),
  ('verbose-vt-in-whitespace-list', 'render', 'regexp.rs', "'\\u{2029}', '\\u{202f}', '\\u{205f}', '\\u{3000}',", "'\\u{2029}', '\\u{202f}', '\\u{205f}', '\\u{3000}', '\\u{b}',", 'fail', 'verbose.'),
  ('len-class-counts-zero', 'expr', 'expression.rs', 'Expression::CharacterClass(_, _) => 1,\n            Expression::Concatenation(expr1, expr2, _, _, _) => expr1.len() + expr2.len(),', 'Expression::CharacterClass(_, _) => 0,\n            Expression::Concatenation(expr1, expr2, _, _, _) => expr1.len() + expr2.len(),', 'fail', 'len.word_length'),
+ ('benign-escaper-chain-reordered', 'escaper', 'grapheme.rs', ".replace('\\n', \"\\\\n\")\n                .replace('\\r', \"\\\\r\")", ".replace('\\r', \"\\\\r\")\n                .replace('\\n', \"\\\\n\")", 'pass', ''),
+ ('escaper-duplicate-in-list', 'escaper', 'grapheme.rs', '"|", "^", "$",\n];', '"|", "^", "(",\n];', 'fail', 'escaper.list_facts'),
+ ('escaper-letter-in-list', 'escaper', 'grapheme.rs', '"+", "*", "-", ".",', '"+", "*", "d", ".",', 'fail', 'escaper.list_facts'),
+ ('escaper-chain-touches-space', 'escaper', 'grapheme.rs', ".replace('\\t', \"\\\\t\");", ".replace('\\t', \"\\\\t\")\n                .replace(' ', \"\\\\s\");", 'fail', 'escaper.control_chain_is_pointwise'),
+ ('escaper-chain-touches-dot', 'escaper', 'grapheme.rs', ".replace('\\t', \"\\\\t\");", ".replace('\\t', \"\\\\t\")\n                .replace('.', \"\\\\.\");", 'fail', 'escaper.list_facts'),
+ ('escaper-lone-backslash-not-doubled', 'escaper', 'grapheme.rs', '            if character == "\\\\" {\n                character = "\\\\\\\\".to_string();\n            }\n', '', 'fail', 'escaper.whole_text_escaped'),
+ ('escaper-rounds-skip-first', 'escaper', 'grapheme.rs', 'for char_to_escape in CHARS_TO_ESCAPE.iter() {', 'for char_to_escape in CHARS_TO_ESCAPE.iter().skip(1) {', 'undecided-or-fail', 'escaper.'),
  ('escaper-dot-not-listed', 'escaper', 'grapheme.rs', 'const CHARS_TO_ESCAPE: [&str; 14] = [\n    "(", ")", "[", "]", "{", "}", "+", "*", "-", ".", "?", "|", "^", "$",\n];', 'const CHARS_TO_ESCAPE: [&str; 13] = [\n    "(", ")", "[", "]", "{", "}", "+", "*", "-", "?", "|", "^", "$",\n];', 'fail', 'escaper.every_metacharacter_is_listed'),
  ('escaper-backslash-after-character', 'escaper', 'grapheme.rs', 'character.replace(char_to_escape, &format!("{}{}", "\\\\", char_to_escape));', 'character.replace(char_to_escape, &format!("{}{}", char_to_escape, "\\\\"));', 'fail', 'escaper.round_prefixes_backslash'),
  ('escaper-tab-written-as-newline', 'escaper', 'grapheme.rs', ".replace('\\t', \"\\\\t\");", ".replace('\\t', \"\\\\n\");", 'fail', 'escaper.controls_single'),
@@ -103,9 +119,9 @@ def _one(repo, m):
             if ln.startswith('finding:') and ('unit=%s ' % unit) in ln:
                 mm = __import__('re').search(r'obligation=(\S+)', ln)
                 if mm: kf_labels.add(mm.group(1))
-        ok = (expect == 'fail' and r['status'] == 'failed' and any(obl in x for x in fails)) or (expect == 'pass' and r['status'] == 'verified') \
+        ok = (expect == 'fail' and r['status'] in ('failed', 'undecided') and any(obl in x for x in fails)) or (expect == 'pass' and r['status'] == 'verified') \
              or (expect == 'undecided-or-fail' and (r['status'] == 'undecided' or (r['status'] == 'failed' and any(obl in x for x in fails)))) \
-             or (expect == 'not-fail' and r['status'] in ('verified', 'undecided')) \
+             or (expect == 'not-fail' and r['status'] in ('verified', 'undecided') and not fails) \
              or (expect == 'pass-kf' and r['status'] in ('verified', 'failed') and set(fails) <= kf_labels)
         return {'mutant': mid, 'unit': unit, 'expected': expect, 'status': r['status'], 'failed_obligations': sorted(set(fails))[:4], 'as_expected': ok}
     finally:
